@@ -814,13 +814,14 @@ class Sweep:
         return fails
 
 
-def _sample(rng, objs, share, entities_all=False):
-    """a share of the objects of every class (at least one each); entities_all: every entity, a share of the helper
-    objects (containers, dimension descriptors, views)"""
+def _sample(rng, objs, share, entity_share=None):
+    """a share of the objects of every class (at least one each); entity_share: that share of the entities, `share`
+    of the helper objects (containers, dimension descriptors, views)"""
     if share >= 1.0:
         return list(objs)
-    if entities_all:
-        return [o for o in objs if o["entity"]] + _sample(rng, [o for o in objs if not o["entity"]], share)
+    if entity_share is not None:
+        return _sample(rng, [o for o in objs if o["entity"]], entity_share) + \
+            _sample(rng, [o for o in objs if not o["entity"]], share)
     by_cls = {}
     for o in objs:
         by_cls.setdefault(o["cls"], []).append(o)
@@ -832,9 +833,9 @@ def _sample(rng, objs, share, entities_all=False):
 
 
 def run(ctx, rng, share=1.0, pristine=False, variants=None, stop_at_first=False, second_pass=True, on_share=0.0,
-        records=None):
-    """the sweep: -> (number of calls, failures, coverage).  share < 1: every entity and a random share of the helper
-    objects (at least one of every class) for the switch-off sessions; pristine: additionally every member of every object on a copy nothing else has touched;
+        records=None, entity_share=1.0):
+    """the sweep: -> (number of calls, failures, coverage).  share < 1: `entity_share` of the entities and `share` of the
+    helper objects (at least one of every class) for the switch-off sessions; pristine: additionally every member of every object on a copy nothing else has touched;
     second_pass: the methods are called before AND after the setters of the object (other state); on_share: share of
     the objects that get a further session with the switch on"""
     from .c19 import Clock, patched_clock
@@ -853,7 +854,7 @@ def run(ctx, rng, share=1.0, pristine=False, variants=None, stop_at_first=False,
         sw = Sweep(ctx, clock)
         sw.records = records
         try:
-            objs = _sample(rng, sw.objs, share, entities_all=True) if share > 0 else []
+            objs = _sample(rng, sw.objs, share, entity_share=entity_share) if share > 0 else []
             sessions = [(o, None) for o in objs]
             if on_share > 0:
                 sessions += [(o, ON) for o in _sample(rng, sw.objs, on_share)]
